@@ -31,9 +31,9 @@ LEVEL_TEXT = (
     "compared bit for bit with the implementation's weights, and as whole histories with fresh interpreters."
 )
 TECHNIQUE = "Lean 4 proof (generic bisect/resolution theorems, AST-translated decision logic, kernel-decided regenerated tables and directory listing) + exhaustive correspondence"
-GEN = ["angular_tables", "angular_logic"]
+GEN = ["angular_tables", "angular_logic", "presets", "atomgrid"]   # the last two: the sector lookup of the pruned / preset routes (Gen/AtomGrid.lean)
 LEAN_MODULES = ["GridVerif.Props.C12", "GridVerif.Props.C12.Listing", "GridVerif.Props.C12.Logic", "GridVerif.Props.C12.Full",
-                "GridVerif.Props.C12.FullDemo"]
+                "GridVerif.Props.C12.FullDemo", "GridVerif.Props.C12.Sectors"]
 THEOREMS = [
     "GridVerif.C12.bisect_left_least_index",
     "GridVerif.C12.resolve_spec",
@@ -75,6 +75,11 @@ THEOREMS = [
     "GridVerif.C12.gen_init_full_reject",
     "GridVerif.C12.gen_init_full_unknown_method",
     "GridVerif.C12.demoLoad_ok",
+    # round 5: over the generated text of AtomGrid._find_degrees_for_radial_points (Gen/AtomGrid.lean)
+    "GridVerif.C12.gen_find_degrees_unfold",
+    "GridVerif.C12.gen_sector_per_shell",
+    "GridVerif.C12.gen_pruned_shell_not_coarser",
+    "GridVerif.C12.gen_find_degrees_append",
 ]
 RULE = (
     "correspondence: every integer degree 0..max+2 of each of the 4 methods (always) and every size "
@@ -105,11 +110,18 @@ RULE = (
     "(degree and size / degrees and sizes / d_sectors and s_sectors both given, None next to the alternative, omitted vs None vs the default, positional vs keyword); calls that "
     "raise (above the maximum, negative, float, both None, unknown method, a bad entry in the middle of a sequence) inside histories, every later accepted call against the table; "
     "one entry for every shell, one / two / three / five radial points, first / last entry the largest or zero, lengths that do not fit. corr and oracle run as independent parts "
-    "(an exception in one part is recorded — `<part>:raises` when the library raised — and never hides the others)"
+    "(an exception in one part is recorded — `<part>:raises` when the library raised — and never hides the others). "
+    "Round 5: from_pruned / from_preset (radii presets) / MolGrid.from_pruned on radial grids in every order — ascending, descending, shuffled, repeated radii, radii "
+    "exactly on sector boundaries, the descending grids the library makes itself (MultiExp / Becke transform of Gauss-Legendre, a reversed Gauss-Laguerre) — every shell "
+    "against the sector of its own radius (brute force; a radius on a boundary may take either neighbour, consistently); radii / boundaries / radius as float16, float32, "
+    "longdouble, integers, called twice with the same objects (boundaries unchanged); one radial grid object shared by two set-ups of different methods in either order, its "
+    "points overwritten in place in between; the same sizes object overwritten in place and used again; converter on 1025 / 4097 / 20001 sizes (thorough: up to 2^19+1) with "
+    "unique first / last entries, per element and additive over a split; an atomic grid with 1025 shells"
 )
 TRUSTED_BASE = [
     "Lean 4.33 kernel; axioms propext, Classical.choice, Quot.sound only (audited per theorem)",
     "translator harness/translate/angular_tables.py (dumps dicts in insertion order, reads npz headers)",
+    "translators harness/translate/atomgrid.py, presets.py (C05's; here for the statement-by-statement text of AtomGrid._find_degrees_for_radial_points, primitives npCountAxis1 / npTake of Model/AtomGrid.lean)",
     "translator harness/translate/angular_logic.py (AST -> Gen/AngularLogic.lean; raises on syntax it cannot carry; also lists the data packages named by the loader)",
     "Model/AngularPy.lean: meaning of bisect_left, dict lookup / in, max, list[i], np.unique, np.zeros, a[np.where(m)] = v, isinstance(x, int | np.integer), comparisons, f-string fields (hand-written primitives; the bisect loop / dict / max are those of Model/Bisect.lean)",
     "harness classification of a Python argument as none / integer (int, bool, np.integer) / other, mirroring isinstance(x, int | np.integer)",
@@ -232,6 +244,9 @@ def _containers(ctx, seq):
     out.append(("non-contiguous", np.repeat(a, 2)[::2], "int"))
     out.append(("float64", a.astype(float), "other"))
     out.append(("float-list", [float(x) for x in seq], "other"))
+    for ft in (np.float32, np.float16, np.longdouble):
+        if all(abs(x) < 2000 for x in seq):
+            out.append((ft.__name__, a.astype(ft), "other"))
     out.append(("bool", a % 2 == 0, "other"))
     return out
 
@@ -1202,6 +1217,27 @@ def _shell_want(ang, m, kind, req):
     return [ext.want(ang, m, kind, int(x)) for x in req]
 
 
+
+def _per_shell_expect(ang, m, kind, seq, bounds, rpts, got_deg, got_shell):
+    """Brute force, shell by shell, independent of the order of the radial array: the sector of a radius is the number of
+    boundaries below it; a radius exactly on a boundary may belong to either neighbour (the documentation gives both
+    readings) but every occurrence of the same radius in one call must get the same one. -> (degrees, shells) or None when a
+    sector request is above the maximum."""
+    ws = _shell_want(ang, m, kind, seq)
+    if any(w is None for w in ws):
+        return None
+    choice, degs, shells = {}, [], []
+    for i, r in enumerate(rpts):
+        lo, hi = sum(1 for b in bounds if b < r), sum(1 for b in bounds if b <= r)
+        allowed = [ws[k] for k in range(lo, hi + 1)]
+        if r not in choice:
+            g = (got_deg[i], got_shell[i]) if got_deg is not None and i < len(got_deg) and i < len(got_shell) else None
+            choice[r] = g if g in allowed else allowed[0]
+        degs.append(choice[r][0])
+        shells.append(choice[r][1])
+    return degs, shells
+
+
 def _oracle_steps(ctx: Ctx, ang, steps, obs, where):
     """Brute-force check of every observation of one history. -> False at the first violation."""
     par = inspect.signature(ang.AngularGrid.__init__).parameters
@@ -1291,6 +1327,35 @@ def _oracle_steps(ctx: Ctx, ang, steps, obs, where):
             exp = {"error": "ValueError"} if any(w is None for w in ws) else {"degrees": [w[0] for w in ws]}
             if {k: o.get(k) for k in exp} != exp:
                 return fail(i, f"angular:{m}:convert", f"convert_angular_sizes_to_degrees gives {o.get('degrees', o.get('error'))}", exp)
+        elif op == "rgrid_edit":
+            continue
+        elif st.get("per_shell") and op in ("pruned", "preset") and m in METHODS:
+            # any order of the radial grid: every shell against the sector of its own radius
+            rpts = o.get("rpoints") or st.get("rpoints")
+            e = _per_shell_expect(ang, m, st["kind"], st["seq"], st["bounds"], rpts, o.get("degrees"), o.get("shells"))
+            exp = {"error": "ValueError"} if e is None else {"degrees": e[0], "shells": e[1]}
+            if {k: o.get(k) for k in exp} != exp:
+                return fail(i, f"angular:{m}:atomgrid:from_{op}:order", f"{op} on the radial points {rpts} (sector boundaries {st['bounds']}, per-sector {st['kind']} requests {st['seq']}): "
+                            f"shell degrees {o.get('degrees', o.get('error'))} / sizes {o.get('shells')}; shell by shell from each radius' own sector: {exp.get('degrees', exp)} / {exp.get('shells')}", exp)
+            if "second" in o and o["second"] != {k: o[k] for k in o["second"]}:
+                return fail(i, f"angular:{m}:atomgrid:from_{op}:second-call", f"{op} called a second time with the same arguments gives {o['second']}, first {exp}", {"second": {**exp, "size": sum(exp.get("shells", []))}})
+            if o.get("bounds_unchanged") is False:
+                return fail(i, f"angular:{m}:atomgrid:from_{op}:argument-changed", f"{op}: the r_sectors array of the caller was modified", {"bounds_unchanged": True})
+        elif st.get("per_shell") and op == "molpruned":
+            rpts = o.get("rpoints") or st.get("rpoints")
+            atoms, bad = [], False
+            for a, (q, b) in enumerate(zip(st["seq"], st["bounds"])):
+                oa = o["atoms"][a] if "atoms" in o and a < len(o["atoms"]) else {}
+                e = _per_shell_expect(ang, "lebedev", st["kind"], q, b, rpts, oa.get("degrees"), oa.get("shells"))
+                if e is None:
+                    bad = True
+                    break
+                atoms.append({"degrees": e[0], "shells": e[1], "size": sum(e[1])})
+            exp = {"error": "ValueError"} if bad else {"atoms": atoms}
+            if {k: o.get(k) for k in exp} != exp:
+                got = o.get("error") or [(a["degrees"], a["shells"]) for a in o.get("atoms", [])]
+                return fail(i, "angular:lebedev:molgrid:pruned:order", f"MolGrid.from_pruned on the radial points {rpts} (boundaries per atom {st['bounds']}, requests {st['seq']}): per atom (degrees, shell sizes) {got}; "
+                            f"shell by shell from each radius' own sector: {[(a['degrees'], a['shells']) for a in atoms] if not bad else 'ValueError'}", exp)
         elif op in ("atomgrid", "pruned", "preset", "atomgrid2", "pruned2") and m in METHODS:
             seq = None
             if op == "atomgrid2":       # both alternative arguments may be given: the documentation says sizes win
@@ -1528,6 +1593,168 @@ def _oracle_round4(ctx: Ctx, ang, budget):
             return
 
 
+
+def _orders(ctx: Ctx, radii):
+    """the same radii ascending, descending, shuffled, with repeats"""
+    a = sorted(radii)
+    sh = list(a)
+    ctx.rng.shuffle(sh)
+    dup = list(sh) + [ctx.rng.choice(a), a[-1], a[0]]
+    ctx.rng.shuffle(dup)
+    return [("asc", a), ("desc", a[::-1]), ("shuffled", sh), ("repeated", dup)]
+
+
+def _round5_steps(ctx: Ctx, ang, n):
+    """Class 22 (radial grids in every order — descending as the library itself makes them, shuffled, repeated radii, radii
+    exactly on sector boundaries), 23 (radii / boundaries / radius given as float16 / float32 / longdouble / integers, a
+    second call with the same objects), 24 / 26 (one radial grid object shared by several atomic grids of different
+    methods and set-ups, in either order), 25 (the points of a shared radial grid overwritten in place between two calls)."""
+    steps = []
+    presets = sorted(p.name[len("prune_grid_"):-4] for p in (SRC / "data" / "prune_grid").glob("prune_grid_*.npz"))
+    radii_presets = [p for p in presets if p not in ext.LIST_PRESETS]
+    dy = [0.125, 0.25, 0.375, 0.5, 0.75, 1.0, 1.25, 1.5, 2.0, 2.5, 3.0, 4.0, 6.0, 8.0, 12.0]      # exact in float16
+    rid = 0
+    for m in METHODS:
+        npts = getattr(ang, PREFIX[m] + "_NPOINTS")
+        ks = [k for k in sorted(npts) if k <= 600]
+        for _ in range(n):
+            nb = ctx.rng.randrange(1, 4)
+            bounds = sorted(ctx.rng.sample(dy[2:-2], nb))
+            kind = ctx.rng.choice(["deg", "size"])
+            picks = ctx.rng.sample(ks, nb + 1)          # distinct grids per sector: a wrong sector always shows
+            seq = [(npts[k] if kind == "deg" else k) - ctx.rng.randrange(0, 2) for k in picks]
+            radii = set(ctx.rng.sample(dy, ctx.rng.randrange(3, 7))) | set(ctx.rng.sample(bounds, ctx.rng.randrange(0, nb + 1))) | {dy[0], dy[-1]}
+            base = {"op": "pruned", "kind": kind, "seq": seq, "radius": 1.0, "r_sectors": bounds, "bounds": bounds, "method": m, "per_shell": True}
+            for name, pts in _orders(ctx, radii):
+                steps.append({**base, "rpoints": pts, "order": name})
+            # a scaled radius (power of two: exact), radii / boundaries / radius in other number types, twice with the same objects
+            pts = _orders(ctx, radii)[ctx.rng.randrange(1, 4)][1]
+            steps.append({**base, "radius": 2.0, "bounds": [2.0 * b for b in bounds], "rpoints": [2.0 * r for r in pts], "order": "scaled"})
+            for pd, bd in (("float32", "float64"), ("float16", "float32"), ("longdouble", "longdouble"), ("float64", "float16")):
+                steps.append({**base, "rpoints": pts, "pdtype": pd, "bdtype": bd, "twice": True, "order": f"{pd}/{bd}", **({"rdtype": "float32"} if pd == "float16" else {})})
+            steps.append({**base, "radius": 2.0, "bounds": [2.0 * b for b in bounds], "rpoints": [2.0 * r for r in pts], "bdtype": "float64", "twice": True, "order": "float64 boundaries, radius 2, twice"})
+            ints = sorted(ctx.rng.sample(range(1, 9), nb))
+            steps.append({**base, "r_sectors": ints, "bounds": [float(b) for b in ints], "bdtype": "int64", "pdtype": "int64" if False else "float64",
+                          "rpoints": [float(x) for x in ctx.rng.sample(range(0, 10), 5)], "twice": True, "order": "integer boundaries"})
+            # the radial grids the library itself produces: descending (MultiExp of Gauss-Legendre), ascending, reversed rule
+            for spec in ({"kind": "multiexp", "rmin": 0.0625, "R": ctx.rng.choice([1.0, 1.5, 3.0]), "n": ctx.rng.randrange(3, 9)},
+                         {"kind": "becke", "rmin": 0.0625, "R": 1.5, "n": ctx.rng.randrange(3, 8)},
+                         {"kind": "laguerre-reversed", "n": ctx.rng.randrange(3, 9)}):
+                steps.append({**base, "rgrid": spec, "order": spec["kind"]})
+            # one radial grid object shared by several atomic grids (other method, other set-up), its points overwritten in between
+            rid += 1
+            m2 = ctx.rng.choice([x for x in METHODS if x != m])
+            shared = {**base, "rpoints": _orders(ctx, radii)[2][1], "rgrid_id": f"g{rid}", "order": "shared"}
+            other = {**shared, "method": m2, "seq": [min(x, 100) for x in seq][::-1]}
+            pair = [shared, other] if ctx.rng.random() < 0.5 else [other, shared]
+            steps += pair + [{"op": "atomgrid", "kind": "deg", "seq": [3] * len(shared["rpoints"]), "rpoints": shared["rpoints"], "rgrid_id": f"g{rid}", "method": m},
+                             {"op": "rgrid_edit", "rgrid_id": f"g{rid}", "rpoints": shared["rpoints"][::-1]}, dict(pair[0]), dict(pair[1])]
+            # from_preset, presets tabulated as radii: radii inside the sectors, exactly on the stored boundaries, in every order
+            pz = ctx.rng.choice(radii_presets + ["sg_1"])
+            zs = [z for z in ext.preset_atnums(pz) if pz != "sg_1" or z <= 18]
+            z = ctx.rng.choice(zs)
+            rad, npt = ext.preset_data(pz, z)
+            b = [float(x) for x in rad]
+            mids = [b[0] / 2] + [(x + y) / 2 for x, y in zip(b, b[1:])] + [b[-1] * 2]
+            radii = set(ctx.rng.sample(mids, min(len(mids), ctx.rng.randrange(2, 5)))) | set(ctx.rng.sample(b, ctx.rng.randrange(0, min(3, len(b)) + 1)))
+            for name, pts in _orders(ctx, radii)[1:]:
+                steps.append({"op": "preset", "preset": pz, "atnum": z, "rpoints": pts, "kind": "size", "seq": [int(x) for x in npt], "bounds": b, "method": m,
+                              "per_shell": True, "order": name})
+    # MolGrid.from_pruned (Lebedev): one radial grid in every order for all atoms, other boundaries per atom
+    coords = [[0.0, 0.0, 0.0], [0.0, 0.0, 1.4], [1.1, 0.3, -0.2]]
+    lk = [k for k in sorted(ang.LEBEDEV_NPOINTS) if k <= 400]
+    for _ in range(n):
+        nat = ctx.rng.randrange(1, 4)
+        radii = set(ctx.rng.sample(dy, 4)) | {0.5}
+        kind = ctx.rng.choice(["deg", "size"])
+        bnds = [sorted(ctx.rng.sample(dy[2:-2], 2)) for _ in range(nat)]
+        seqs = [[(ang.LEBEDEV_NPOINTS[k] if kind == "deg" else k) for k in ctx.rng.sample(lk, 3)] for _ in range(nat)]
+        for name, pts in _orders(ctx, radii)[1:]:
+            steps.append({"op": "molpruned", "atnums": [ctx.rng.choice([1, 6, 8]) for _ in range(nat)], "atcoords": coords[:nat], "kind": kind, "seq": seqs,
+                          "radius": [1.0] * nat, "r_sectors": bnds, "bounds": bnds, "rpoints": pts, "per_shell": True, "order": name})
+    return json.loads(json.dumps(steps))
+
+
+def _block_sizes(ctx: Ctx):
+    return [1025, 4097, 20001] + ([31234, 65537, 2 ** 19 + 1] if ctx.thorough else [])
+
+
+def _oracle_blocks(ctx: Ctx, ang):
+    """Class 21: sequences longer than any plausible block (1025, 4097, 20001 elements; thorough up to 2^19 + 1) through the
+    converter — every element against the table, and additivity over a split — and an atomic grid with 1025 shells."""
+    conv = ang.AngularGrid.convert_angular_sizes_to_degrees
+    for m in METHODS:
+        npts = getattr(ang, PREFIX[m] + "_NPOINTS")
+        ks = sorted(npts)
+        pool = [ctx.rng.randrange(0, ks[-1] + 1) for _ in range(40)] + ks[:10] + [ks[-1], 0]
+        ref = {x: npts[min(k for k in ks if k >= x)] for x in set(pool)}
+        for n in _block_sizes(ctx):
+            seq = np.array([ctx.rng.choice(pool) for _ in range(n)], dtype=np.int64)
+            # first / last element special: sizes that occur nowhere else in the sequence
+            outside = [x for x in range(1, ks[-1]) if x not in ref][:2]
+            for x in outside:
+                ref[x] = npts[min(k for k in ks if k >= x)]
+            seq[-1], seq[0] = outside[0], outside[1]
+            ctx.count(["blocks", m, n, int(seq[:8].sum())], nontrivial=True, tag="oracle:blocks:convert")
+            got = np.asarray(conv(seq.copy(), m))
+            want = np.array([ref[int(x)] for x in seq])
+            cut = n // 3 + 1
+            parts = np.concatenate([np.asarray(conv(seq[:cut].copy(), m)), np.asarray(conv(seq[cut:].copy(), m))])
+            if got.shape != want.shape or not np.array_equal(got, want) or not np.array_equal(parts, want):
+                bad = int(np.argmax(got != want)) if got.shape == want.shape and not np.array_equal(got, want) else -1
+                ctx.fail("oracle", f"angular:{m}:convert:blocks", f"convert_angular_sizes_to_degrees on {n} sizes (method {m}): " +
+                         (f"element {bad}: size {int(seq[bad])} -> {int(got[bad])}, the table gives {int(want[bad])}" if bad >= 0 else f"result of shape {got.shape} / not additive over a split at {cut}"),
+                         witness={"method": m, "n": n, "pool": pool},
+                         snippet=("import warnings; warnings.filterwarnings('ignore')\nimport numpy as np\nfrom grid import angular as ang\n"
+                                  f"m, n, pool = {m!r}, {n}, {pool!r}\n"
+                                  "P = {'lebedev':'LEBEDEV','spherical':'SPHERICAL','maxdet':'MAX_DET','ahrens_beylkin':'AHRENS_BEYLKIN'}\n"
+                                  "npts = getattr(ang, P[m] + '_NPOINTS'); ks = sorted(npts)\n"
+                                  "seq = np.array([pool[(7 * i + i // 13) % len(pool)] for i in range(n)]); seq[-1] = [x for x in range(1, ks[-1]) if x not in pool][0]\n"
+                                  "got = ang.AngularGrid.convert_angular_sizes_to_degrees(seq.copy(), m)\n"
+                                  "want = np.array([npts[min(k for k in ks if k >= x)] for x in seq])\n"
+                                  "assert got.shape == want.shape and np.array_equal(got, want), 'first wrong element %d' % int(np.argmax(np.asarray(got)[:len(want)] != want[:len(got)]))\n"))
+                return False
+    # many shells: 1025 radial points, small grids
+    from grid.atomgrid import AtomGrid
+    from grid.basegrid import OneDGrid
+    m = ctx.rng.choice(METHODS)
+    n = 1025
+    req = [ctx.rng.choice([0, 2, 3, 4, 5]) for _ in range(n)]
+    rg = OneDGrid(np.linspace(0.01, 9.0, n), np.ones(n), (0, np.inf))
+    with warnings.catch_warnings():
+        warnings.simplefilter("ignore")
+        g = AtomGrid(rg, degrees=req, method=m)
+    ws = _shell_want(ang, m, "deg", req)
+    got = ([int(x) for x in g.degrees], [int(g.indices[i + 1] - g.indices[i]) for i in range(n)])
+    ctx.count(["blocks", "atomgrid", m, n], nontrivial=True, tag="oracle:blocks:atomgrid")
+    if got != ([w[0] for w in ws], [w[1] for w in ws]):
+        k = next(i for i in range(n) if (got[0][i], got[1][i]) != ws[i])
+        ctx.fail("oracle", f"angular:{m}:atomgrid:blocks", f"AtomGrid with {n} shells (method {m}): shell {k} asked for degree {req[k]} has degree {got[0][k]} / {got[1][k]} points, the table gives {ws[k]}",
+                 witness={"method": m, "n": n, "shell": k})
+        return False
+    return True
+
+
+def _oracle_round5(ctx: Ctx, ang, budget):
+    big = budget == "large" or ctx.thorough
+    steps = _round5_steps(ctx, ang, 3 if big else 1)
+    if not _oracle_steps(ctx, ang, steps, ext.exec_steps(steps), "inproc"):
+        return
+    # in fresh interpreters: a descending / shuffled radial grid as the first thing, and pairs of set-ups sharing one radial grid
+    # in either order (each answer is compared with the table = what the set-up gives in isolation)
+    chunks = [steps[i:i + 9] for i in range(0, len(steps), 9)]
+    chunks = chunks[:12] if big else ctx.rng.sample(chunks, min(3, len(chunks)))
+    chunks = [c for c in chunks if not any(s.get("op") == "rgrid_edit" or "rgrid_id" in s for s in c)]
+    chunks += [[s for s in steps if s.get("rgrid_id") == g] for g in ("g1", "g2")]      # shared radial grid objects: whole groups only
+    chunks = [c for c in chunks if c]
+    for sc, ob in zip(chunks, ext.run_scenarios(chunks)):
+        if len(ob) != len(sc):
+            ctx.fail("oracle", "angular:fresh:crash", f"fresh interpreter: history did not run to its end: {str(ob)[-300:]}", witness={"steps": sc})
+            continue
+        if not _oracle_steps(ctx, ang, sc, ob, "fresh"):
+            return
+
+
 def _same_object_cases(ctx: Ctx, ang, n):
     """(route, method, kind, container, request, times, sector, atoms): ONE argument object serving several requests."""
     cases = []
@@ -1546,7 +1773,8 @@ def _same_object_cases(ctx: Ctx, ang, n):
                     req = [max(0, ctx.rng.choice(src[4:]) - ctx.rng.randrange(0, 2)) for _ in range(L)]
                     if ctx.rng.random() < 0.3:
                         req[-1] = req[0]
-                    cases.append((route, m, kind, cont, req, ctx.rng.choice([2, 3]), ctx.rng.randrange(2), ctx.rng.choice([2, 3])))
+                    then = [max(0, ctx.rng.choice(src[4:]) - ctx.rng.randrange(0, 2)) for _ in range(L)]
+                    cases.append((route, m, kind, cont, req, ctx.rng.choice([2, 3]), ctx.rng.randrange(2), ctx.rng.choice([2, 3]), then))
     return cases
 
 
@@ -1768,4 +1996,6 @@ def oracle(ctx: Ctx, budget: str):
         ("angular:same-object", lambda: _oracle_same_object(ctx, ang, 1 if small else 4)),
         ("angular:convert", lambda: _oracle_convert_history(ctx, ang, budget)),
         ("angular:round4", lambda: _oracle_round4(ctx, ang, budget)),
+        ("angular:orders", lambda: _oracle_round5(ctx, ang, budget)),
+        ("angular:blocks", lambda: _oracle_blocks(ctx, ang)),
     ])
